@@ -241,6 +241,14 @@ def _degenerate_flows(ctx, res, rng):
         if dF > tol:
             res.violation(f"integrated:{fam}:F_not_frame_indifferent", f"deformation gradients differ between the frames by {dF:.3e} > {tol:.3e}", rep)
         if fam == "pure_spin":
+            # the integrated form of rigid_rotation_rhs (Properties/C04Rhs.lean): dA/dt = damp * A L^T, so A(t) = A0 exp(damp L^T t)
+            from scipy.linalg import expm
+            damp = 1.0 if sc["regime"] == 4 else 0.3
+            want = A0 @ expm(damp * L.T * sc["span"])
+            dev = float(np.abs(m1.orientations[-1] - want).max())
+            res.count("integrated_pairs:pure_spin:closed_form_compared")
+            if dev > tol:
+                res.violation("integrated:pure_spin:not_corotating", f"rigid rotation: the texture differs from A0 exp({damp} L^T t) by {dev:.3e} > {tol:.3e}", rep)
             moved1 = float(np.abs(m1.orientations[-1] - A0).max())
             moved2 = float(np.abs(m2.orientations[-1] - A0 @ Q.T).max())
             if dA > tol and moved1 == 0.0 and moved2 > tol:
